@@ -1,3 +1,3 @@
-From Sylt Require Import Syntax.Ast Syntax.Tok Parse.PrecTable Gen.GenPrec.
-Eval vm_compute in prec_table_ok table.
-Eval vm_compute in (pt_prec (interp table) (TK KStar), pt_unary_level (interp table), pt_entry (interp table)).
+From Coq Require Import String List NArith Bool Ascii DecimalString Decimal.
+Compute NilZero.string_of_uint (Nat.to_uint 12).
+Compute NilZero.string_of_uint (N.to_uint 0).
